@@ -37,6 +37,9 @@ type Input struct {
 	Lengths map[string]int64
 	// Endless marks routes whose body never ends (zeros after Bodies' bytes)
 	Endless map[string]bool
+	// Redirect marks routes that answer every request with a redirect to an ever
+	// new URL of the same route
+	Redirect map[string]bool
 	// Together makes requests that arrive within a few milliseconds of each
 	// other be answered at the same instant
 	Together bool
@@ -732,7 +735,7 @@ func genHostileBody(rng *rand.Rand, idx int) Input {
 	}
 	ch := pki.MustBuild(specs...)
 	cert, issuer, ikey := ch.Certs[0], ch.Certs[1], ch.Keys[1]
-	in := Input{Kind: "chain", WithST: rng.IntN(2) == 0, Cache: rng.IntN(2) == 0, Bodies: map[string][]byte{}, Lengths: map[string]int64{}, Endless: map[string]bool{}}
+	in := Input{Kind: "chain", WithST: rng.IntN(2) == 0, Cache: rng.IntN(2) == 0, Bodies: map[string][]byte{}, Lengths: map[string]int64{}, Endless: map[string]bool{}, Redirect: map[string]bool{}}
 	if upper {
 		b := pki.BuildCRL(&pki.CRL{IssuerRawName: ch.Certs[2].RawSubject, SignKey: ch.Keys[2], NextUpdate: pki.Future, Number: big.NewInt(7)})
 		in.Bodies[fmt.Sprintf("e0.%s.test/base.crl", fam)] = b[:len(b)-1]
@@ -763,6 +766,10 @@ func genHostileBody(rng *rand.Rand, idx int) Input {
 		if rng.IntN(60) == 0 {
 			in.Endless[host+"/base.crl"] = true
 			d += " endless-body"
+		}
+		if rng.IntN(40) == 0 {
+			in.Redirect[host+"/base.crl"] = true
+			d += " endless-redirects"
 		}
 		if rng.IntN(6) == 0 {
 			l := lyingLengths[rng.IntN(len(lyingLengths))]
